@@ -85,14 +85,14 @@ func C02(tier rt.Tier) int {
 	per := 25 * time.Second
 	if tier == rt.Quick {
 		runs = []alphabet{
-			{name: "mem-v1", kind: Mem, paths: p2, vals: []string{"x", "y"}, depth: 3, version: 1},
+			{name: "mem-v1", kind: Mem, paths: p2, vals: []string{"x", "y"}, oversize: true, depth: 3, version: 1},
 			{name: "mem-v1-deep", kind: Mem, paths: p2[:13], vals: []string{"x"}, depth: 5, version: 1},
 			{name: "level-pnodedb-v7", kind: LevelP, paths: p2[:13], vals: []string{"x"}, flush: true, depth: 4, version: 7},
 		}
 	} else {
 		per = 3 * time.Minute
 		runs = []alphabet{
-			{name: "mem-v1", kind: Mem, paths: p2, vals: []string{"x", "y"}, depth: 5, version: 1},
+			{name: "mem-v1", kind: Mem, paths: p2, vals: []string{"x", "y"}, oversize: true, depth: 5, version: 1},
 			{name: "mem-3symbols-v0", kind: Mem, paths: Paths("0af", 4), vals: []string{"x", "y"}, depth: 4, version: 0},
 			{name: "level-mem-vneg", kind: LevelMem, paths: p2, vals: []string{"x", "y"}, flush: true, depth: 5, version: -3},
 			{name: "level-pnodedb-v7", kind: LevelP, paths: p2, vals: []string{"x", "y"}, flush: true, depth: 5, version: 1 << 40},
